@@ -1,6 +1,8 @@
 import PV.Model.Eval
 import PV.Model.Ops
 import PV.Model.Traverse
+import PV.Driver.GAOps
+import PV.Driver.AlgoOps
 /-
   Driver operations: one request S-expression in, one reply S-expression out.
 -/
@@ -174,6 +176,12 @@ def handleTraverse : Sexp → Option Sexp
   | _ => none
 
 def handle (req : Sexp) : Sexp :=
+  match handleGA req with
+  | some r => r
+  | none =>
+  match handleAlgo req with
+  | some r => r
+  | none =>
   match handleTraverse req with
   | some r => r
   | none =>
